@@ -516,3 +516,125 @@ class RestartSnap(Base):
     def summary(self, drv):
         return {'after_start': self.after_start_snap, 'end': self.end_snap,
                 'settled': self.settled_snap}
+
+
+class C06Hold(Base):
+    """Held tasks never enter job preparation; holds apply at spawn
+    (hold model: DESIGN Appendix E.5)."""
+    NAME = 'c06'
+    PID = 'C06'
+
+    def __init__(self, case, phase):
+        super().__init__(case, phase)
+        st = (phase.get('carry') or {}).get('c06') or {}
+        self.H: Set[str] = set(st.get('H', []))
+        self.hp = st.get('hp')
+        self.released_manual: Set[str] = set(st.get('exempt', []))
+
+    def after_start(self, drv, schd):
+        # [scheduling]hold after cycle point takes effect during start-up,
+        # after the initial pool has been loaded
+        if self.hp is None and self.gt.get('hold_after') is not None \
+                and not self.phase.get('restart'):
+            self.hp = self.gt['hold_after']
+            from vlib.e1.driver import snap_pool
+            for t in snap_pool(schd.pool):
+                if int(t['point']) > self.hp:
+                    self.n['spawned_into_hold'] += 1
+                    if not t['held']:
+                        self.v('not-held-at-spawn:hold-point',
+                               f'{t["id"]} not held after start-up although '
+                               f'beyond the configured hold point {self.hp}',
+                               t)
+
+    def on_event(self, ev):
+        from vlib.e1.monitors import match_ids
+        k = ev['k']
+        if k == 'CMD':
+            cmd, args = ev['cmd'], ev['args']
+            pool = ev.get('pool') or []
+            if cmd == 'hold':
+                for tid in match_ids(args['tasks'], pool, self.gt):
+                    self.H.add(tid)
+                self.n['hold_cmds'] += 1
+            elif cmd == 'release':
+                for tid in match_ids(args['tasks'], pool, self.gt):
+                    self.H.discard(tid)
+                    # an explicit release also lifts the hold-point hold
+                    # of that task: make no further claim about it
+                    self.released_manual.add(tid)
+                # a glob may also release held future tasks: stop claiming
+                if any(c in ''.join(args['tasks']) for c in '*?['):
+                    pooled = {t['id'] for t in pool}
+                    self.H = {h for h in self.H if h in pooled
+                              and h not in match_ids(args['tasks'], pool,
+                                                     self.gt)}
+                self.n['release_cmds'] += 1
+            elif cmd == 'set_hold_point':
+                self.hp = int(args['point'])
+                for t in pool:
+                    if int(t['point']) > self.hp:
+                        self.H.add(t['id'])
+                self.n['hold_point_cmds'] += 1
+            elif cmd == 'release_hold_point':
+                self.hp = None
+                self.H = set()
+            elif cmd in ('force_trigger_tasks', 'set', 'remove_tasks'):
+                # manual intervention on those tasks: no claims about them
+                for tid in match_ids(args.get('tasks') or [], pool, self.gt):
+                    self.H.discard(tid)
+                    self.released_manual.add(tid)
+        elif k == 'CMD_REJECTED' and ev['cmd'] in (
+                'hold', 'release', 'set_hold_point', 'release_hold_point'):
+            # the model applied a command the scheduler refused: stop
+            # making model-based claims in this run
+            self.H = set()
+            self.hp = None
+            self.n['model_reset_on_rejected_cmd'] += 1
+        elif k == 'POOL_ADD':
+            t = ev['task']
+            tid = t['id']
+            want = tid in self.H or (self.hp is not None
+                                     and int(t['point']) > self.hp)
+            if tid in self.released_manual or t['manual']:
+                return
+            if self.phase.get('restart') and self.drv.bus.it == 0:
+                return    # reloaded from the DB: judged by the snapshots
+            self.n['spawn_checks'] += 1
+            if want:
+                self.n['spawned_into_hold'] += 1
+                if not t['held']:
+                    why = ('held earlier by command' if tid in self.H else
+                           f'beyond hold point {self.hp}')
+                    self.v('not-held-at-spawn:' + (
+                        'future-hold' if tid in self.H else 'hold-point'),
+                        f'{tid} spawned not held although {why}', t)
+        elif k == 'POOL_REMOVE':
+            self.H.discard(ev['task']['id'])
+        elif k == 'PREP':
+            for t in ev['tasks']:
+                tid = t['id']
+                if t['manual'] or tid in self.drv.ledger.manual:
+                    self.n['manual_preps'] += 1
+                    continue
+                if t['status'] == 'preparing':
+                    continue      # passed back through: judged at entry
+                self.n['prep_checks'] += 1
+                if t['held']:
+                    self.v('held-task-prepared',
+                           f'{tid} entered job preparation while flagged '
+                           'held', t)
+                elif tid in self.released_manual:
+                    continue
+                elif tid in self.H or (self.hp is not None and
+                                       int(t['point']) > self.hp):
+                    self.v('held-task-prepared:model',
+                           f'{tid} entered job preparation although held '
+                           f'(hold set {sorted(self.H)[:5]}, hold point '
+                           f'{self.hp})', t)
+
+    def summary(self, drv):
+        d = dict(self.n)
+        d['_state'] = {'H': sorted(self.H), 'hp': self.hp,
+                       'exempt': sorted(self.released_manual)}
+        return d
